@@ -75,7 +75,8 @@ pub fn to_fasta(recs: &[Rec], o: &SerOpts) -> Vec<u8> {
     out
 }
 
-/// Standard 4-line FASTQ; records must have at least one base (the parser rejects empty ones).
+/// FASTQ: 4-line records, or (o.wrap = Some(n)) sequence and quality wrapped over the same number of lines
+/// as in older multi-line FASTQ; records must have at least one base (the parser rejects empty ones).
 pub fn to_fastq(recs: &[Rec], o: &SerOpts) -> Vec<u8> {
     let nl: &[u8] = if o.crlf { b"\r\n" } else { b"\n" };
     let mut out = Vec::new();
@@ -83,15 +84,24 @@ pub fn to_fastq(recs: &[Rec], o: &SerOpts) -> Vec<u8> {
         assert!(!r.seq.is_empty(), "FASTQ records need bases");
         header(&mut out, b'@', r, true);
         out.extend_from_slice(nl);
-        out.extend_from_slice(&r.seq);
-        out.extend_from_slice(nl);
+        let w = o.wrap.unwrap_or(usize::MAX).max(1);
+        for chunk in r.seq.chunks(w) {
+            out.extend_from_slice(chunk);
+            out.extend_from_slice(nl);
+        }
         out.push(b'+');
         out.extend_from_slice(nl);
-        // quality: printable, may legitimately start with '@' or '+'
-        for j in 0..r.seq.len() {
-            out.push(b'!' + ((i * 7 + j * 13) % 60) as u8);
+        // quality: printable; in the 4-line layout it may legitimately start with '@' or '+', wrapped
+        // layouts avoid those two at line starts (ambiguous for any line-oriented parser)
+        let qual: Vec<u8> = (0..r.seq.len()).map(|j| b'!' + ((i * 7 + j * 13) % 60) as u8).collect();
+        for chunk in qual.chunks(w) {
+            let mut c = chunk.to_vec();
+            if o.wrap.is_some() && (c[0] == b'@' || c[0] == b'+') {
+                c[0] = b'I';
+            }
+            out.extend_from_slice(&c);
+            out.extend_from_slice(nl);
         }
-        out.extend_from_slice(nl);
     }
     if !o.final_newline && out.ends_with(nl) {
         let n = out.len() - nl.len();
